@@ -44,6 +44,10 @@ pub enum Op {
     Send { idx: u8, dial: bool, size: usize, try_send: bool },
     Cancel { idx: u8 },
     CutLink,
+    /// environment fault: the requester's new outbound substreams are slow to open (held back) / released
+    HoldOpens(bool),
+    /// let n seconds of virtual time pass
+    Wait(u32),
 }
 
 #[derive(Clone, Debug, Serialize, Deserialize)]
@@ -83,6 +87,8 @@ pub struct St {
     b_log: Arc<Mutex<Vec<BLog>>>,
     pc: usize,
     peer_b: PeerId,
+    wait: Option<u32>,
+    node_a: usize,
 }
 
 fn payload(idx: u8, size: usize) -> Vec<u8> {
@@ -220,15 +226,22 @@ impl Scenario for RrScenario {
             let ord = if self.connected { 1 } else { next };
             w.faults.fail_dials.insert((a, ord));
         }
-        St { a_cmd, a_log, b_log, pc: 0, peer_b }
+        St { a_cmd, a_log, b_log, pc: 0, peer_b, wait: None, node_a: a }
     }
 
     fn lazy_count(&self, st: &St, _w: &World) -> usize {
         usize::from(st.pc < self.program.len())
     }
 
+    fn lazy_wait(&self, st: &St) -> Option<Duration> {
+        st.wait.map(|n| Duration::from_secs(n as u64))
+    }
+
     fn lazy_apply(&self, st: &mut St, w: &mut World, _k: usize) {
+        st.wait = None;
         match &self.program[st.pc] {
+            Op::HoldOpens(hold) => w.nodes[st.node_a].script.set_hold_opens(*hold),
+            Op::Wait(n) => st.wait = Some(*n),
             Op::Send { idx, dial, size, try_send } => {
                 let _ = st.a_cmd.send(ACmd::Send { idx: *idx, dial: *dial, size: *size, try_send: *try_send });
             }
@@ -383,6 +396,23 @@ pub fn scenarios(thorough: bool) -> Vec<RrScenario> {
     for n in 1..=2u8 {
         let program: Vec<Op> = (0..n).map(|i| send(i, true)).collect();
         v.push(RrScenario { connected: false, program, responder: Resp::Answer, max_inbound: None, fail_first_dial: false, remote_refuses: true });
+    }
+    // the requester's substream is slow to open: the request times out (4 s) before the substream exists, is cancelled,
+    // or the connection drops first; the late substream must not produce a second event
+    for responder in [Resp::Answer, Resp::Stall] {
+        for connected in [true, false] {
+            let mk = |program: Vec<Op>| RrScenario { connected, program, responder, max_inbound: None, fail_first_dial: false, remote_refuses: false };
+            if responder == Resp::Answer {
+                v.push(mk(vec![Op::HoldOpens(true), send(0, true), Op::Wait(5), Op::HoldOpens(false)]));
+                v.push(mk(vec![Op::HoldOpens(true), send(0, true), Op::Cancel { idx: 0 }, Op::HoldOpens(false), send(1, true)]));
+                if connected || thorough {
+                    v.push(mk(vec![Op::HoldOpens(true), send(0, true), send(1, true), Op::CutLink, Op::HoldOpens(false)]));
+                    v.push(mk(vec![Op::HoldOpens(true), send(0, true), Op::Wait(6), Op::HoldOpens(false), send(1, true)]));
+                }
+            } else if connected {
+                v.push(mk(vec![Op::HoldOpens(true), send(0, true), Op::Wait(2), Op::HoldOpens(false)]));
+            }
+        }
     }
     // payload sizes
     for size in [0usize, 1, MAX_SIZE, MAX_SIZE + 1] {
